@@ -67,6 +67,17 @@ F2Behind == { Cat(<<Look(Quant(Ncg(Quant(bd, q2)), q1), TRUE, FALSE), sf>>) :
                 bd \in {A, Opt(A), Grp(A), Grp(Alt(<<A, Empty>>)), Ncg(Empty), LazyStar(A)},
                 q2 \in QSmall, q1 \in QSmall, sf \in {Empty, B} }
 F2 == With(F2Fwd \cup F2Three \cup F2Behind, NoFlags)
+\* F2x: lazy counted loops over nullable bodies inside loops; loops whose body holds a look-around that
+\* itself holds a loop (the look-around's sub-match shares the loop registers) next to a nullable tail
+F2xLazy == { Cat(<<Quant(Ncg(Quant(bd, q2)), q1), sf>>) :
+               bd \in {Opt(A), Grp(Alt(<<A, Empty>>)), LazyStar(A), Ncg(Empty)},
+               q2 \in {<<1, 1, FALSE>>, <<2, 2, FALSE>>, <<0, 1, FALSE>>, <<1, 2, FALSE>>},
+               q1 \in QSmall, sf \in {B, Empty} }
+F2xLook == { Cat(<<Quant(Ncg(Cat(<<Look(Quant(x, qi), bh, FALSE), y>>)), q1), sf>>) :
+               x \in {A, Ncg(Cat(<<A, B>>)), Dot}, qi \in {<<0, -1, TRUE>>, <<1, -1, TRUE>>, <<0, 2, FALSE>>},
+               bh \in BOOLEAN, y \in {Opt(A), Empty, LazyStar(A)},
+               q1 \in {<<0, -1, TRUE>>, <<1, -1, FALSE>>, <<2, 2, TRUE>>, <<0, 2, FALSE>>}, sf \in {B, Chr(cc)} }
+F2x == With(F2xLazy \cup F2xLook, NoFlags)
 F2Hay == [alpha |-> {ca, cb}, maxlen |-> IF Thorough THEN 5 ELSE 4]
 
 (***************************************************************************)
@@ -453,6 +464,7 @@ AttachHaysSp(F, spec) == {[ast |-> x.ast, fl |-> x.fl, sp |-> x.sp, hays |-> Hay
 FamilyCases(name) ==
   CASE name = "F1" -> AttachHays(F1, F1Hay)
     [] name = "F2" -> AttachHays(F2, F2Hay)
+    [] name = "F2x" -> AttachHays(F2x, [alpha |-> {ca, cb, cc}, maxlen |-> 3])
     [] name = "F3" -> AttachHays(F3, F3Hay)
     [] name = "F4" -> AttachHays(F4, F4Hay)
     [] name = "F5" -> AttachHays(F5, F5Hay)
